@@ -94,6 +94,9 @@ type qres struct {
 
 // discharge decides one obligation.
 func discharge(o *Oblig, cfg SolverCfg) {
+	if o.Solver == "trivial" && o.Status == "discharged" {
+		return // goal folded to true during generation
+	}
 	q := o.buildQuery(false)
 	o.Query = q
 	h := fmt.Sprintf("%x", sha1.Sum([]byte(q)))
